@@ -23,6 +23,7 @@ type xcase struct {
 	Alias      string
 	Pattern    int
 	Seed       int64
+	Spare      bool // slices are windows into larger arrays (cap > len) instead of cap == len
 }
 
 func fill(b []byte, pattern int, rng *rand.Rand) {
@@ -45,6 +46,9 @@ func runCase(c xcase) string {
 	mk := func(l, off int) ([]byte, []byte) {
 		arr := make([]byte, guard+off+l+guard+8)
 		fill(arr, c.Pattern, rng)
+		if c.Spare {
+			return arr, arr[guard+off : guard+off+l]
+		}
 		return arr, arr[guard+off : guard+off+l : guard+off+l]
 	}
 	arrA, a := mk(c.La, c.Oa)
@@ -136,7 +140,7 @@ func main() {
 		r.Write(*out)
 		return
 	}
-	r.Rule = "bounded-exhaustive: every (len a, len b) in 0..N x 0..N, start offsets of dst/a/b in 0..7 (all 8 for each slice with the others drawn from the PRNG, plus all 8 equal-offset triples), contents PRNG/0x00/0xFF, aliasing distinct|dst==a|dst==b, dst length min..min+3; oracle = bytewise XOR from copies + unchanged guard zones; distinct = (len a, len b, alias, offset triple) combinations"
+	r.Rule = "bounded-exhaustive: every (len a, len b) in 0..N x 0..N, start offsets of dst/a/b in 0..7 (all 8 for each slice with the others drawn from the PRNG, plus all 8 equal-offset triples), contents PRNG/0x00/0xFF, aliasing distinct|dst==a|dst==b, dst length min..min+9, slices with cap == len or as windows into larger arrays (spare capacity behind them); oracle = bytewise XOR from copies + unchanged guard zones; distinct = (len a, len b, alias, offset triple) combinations"
 	r.Assumptions = []string{"xor_arm.go/.s cannot execute on this amd64 sandbox: not covered", "partial overlaps other than dst==a / dst==b are outside the statement"}
 	n := 100
 	if *tier == "thorough" {
@@ -165,7 +169,7 @@ func main() {
 				}
 				for off := 0; off < 8; off++ {
 					for which := 0; which < 4; which++ {
-						c := xcase{La: la, Lb: lb, Ld: mn + rng.Intn(4), Alias: alias, Pattern: rng.Intn(4) % 3, Seed: rng.Int63()}
+						c := xcase{La: la, Lb: lb, Ld: mn + rng.Intn(10), Alias: alias, Pattern: rng.Intn(4) % 3, Seed: rng.Int63(), Spare: rng.Intn(2) == 0}
 						c.Oa, c.Ob, c.Od = rng.Intn(8), rng.Intn(8), rng.Intn(8)
 						switch which {
 						case 0:
